@@ -456,7 +456,8 @@ let compatible (exp : ((int * string list) list * string list) option) (os : obs
    specification's firings for the definitions whose implementation node is the definition's own node. *)
 let comparable (d : def) : bool =
   match d with
-  | DMap _ | DFilter _ | DMerge _ | DSnapshot _ | DGate _ | DOnce _ | DHold _ | DMapC _ | DLift _ | DSLoop | DCLoop -> true
+  | DMap _ | DFilter _ | DMerge _ | DSnapshot _ | DGate _ | DOnce _ | DHold _ | DMapC _ | DLift _ | DSLoop | DCLoop
+  | DSwitchS _ | DSwitchC _ -> true
   | _ -> false
 
 let expected_updates (st1 : state) : (int list * int list) option =
@@ -536,7 +537,7 @@ let line_outcomes env (st0 : state) line (expected : string option) : (state * s
          (match closing_state with
           | Some cs ->
             incr closings;
-            if q = [] && not (has_switch cs) then upd_ann := expected_updates cs else upd_ann := None
+            if q = [] then upd_ann := expected_updates cs else upd_ann := None
           | None -> ());
          drain st1 q (acc @ os) (fun st2 acc2 -> go st2 acc2 rest)
        | EErr e -> add (st, canon (acc @ [BPanic e]), true)) in
